@@ -36,7 +36,7 @@ def build():
     u.take(H, "Hook", "hooks")
     u.raw("hooks", SPEC)
     u.macro(H, "get_hook_output")
-    u.verify(H, "call_single", "hooks", props=["C10"], fns={"call_single": FnSpec(ret="r", ghost=True, sig="""
+    u.verify(H, "call_single", "hooks", props=["C10", "C07"], fns={"call_single": FnSpec(ret="r", ghost=True, sig="""
     requires !old(w).running,
     ensures r is Ok ==> !final(w).running,
         // an error between spawn and wait (stdin template / stdin write) must not leave the child un-waited
@@ -44,6 +44,8 @@ def build():
         // the hook's command is spawned once, with the documented arguments / environment / redirections, and waited for;
         // a failing exit status is an error unless allow_failure is set
         r is Ok ==> (proc_of(*hook, data) matches Some(p) && final(w).spawned == old(w).spawned.push(p)), //@C10.process_is_the_configured_command
+        // a hook that did not end with exit code 0 (another code, or killed by a signal) is a failed step unless allow_failure is set
+        r is Ok ==> final(w).last_exit_ok || hook.allow_failure, //@C10.a_failed_hook_aborts_the_operation_unless_allow_failure,C07.a_failed_step_makes_a_failed_attempt
         r is Err ==> final(w).spawned == old(w).spawned
             || (proc_of(*hook, data) matches Some(p) && final(w).spawned == old(w).spawned.push(p)), //@C10.error_leaves_at_most_this_process
 """, loops={1: """
@@ -91,6 +93,7 @@ pub tracked struct World {
     pub ghost spawned: Seq<crate::vproc::ProcSpec>,
     pub ghost runs: Seq<int>,      // unused
     pub ghost running: bool,
+    pub ghost last_exit_ok: bool,  // the latest child waited for ended with exit code 0 (not another code, not a signal)
 }
 """
 
